@@ -847,6 +847,23 @@ def ufunc_cases(rng, tier):
 
 
 # ------------------------------------------------------------ functionals
+def functional_variants():
+    """(rzv, mav): which behaviour the current source exhibits on the replay inputs of two recorded findings
+    (DESIGN 2.5): RosenbrockFunctional.gradient on a weighted space returns the bare partial derivatives
+    (False) or divides them by the weights (True); MatrixOperator.adjoint between weighted spaces is the
+    plain transpose (False) or the true adjoint (True).  The theorem covers all four combinations."""
+    if 'fvar' not in _CACHE:
+        import odl
+        X = odl.rn(2, weighting=2.0)
+        g = np.asarray(odl.solvers.RosenbrockFunctional(X, scale=1.0).gradient(X.element([0.0, 0.0])))
+        rzv = not np.allclose(g, [-2.0, 0.0])           # partials at (0, 0): (-2, 0)
+        M = odl.MatrixOperator(np.array([[1.0, 2.0]]), domain=X, range=odl.rn(1))
+        a = np.asarray(M.adjoint(odl.rn(1).element([1.0])))
+        mav = not np.allclose(a, [1.0, 2.0])             # plain transpose: (1, 2); true adjoint: (0.5, 1)
+        _CACHE['fvar'] = (bool(rzv), bool(mav))
+    return _CACHE['fvar']
+
+
 def fser(f):
     """Python functional -> Gallina term of type fexpr (T:=Q)"""
     import odl
@@ -968,8 +985,11 @@ def functional_cases(rng, tier):
                 nums = [val, dd] + grad
                 if not _finite_small(nums):
                     continue
-                term = ('{| f_e := %s; f_w := %s; f_x := %s; f_d := %s; f_val := %s; f_grad := %s; f_dd := %s; f_inner := %s |}'
-                        % (e, C.qs(wts(X)), C.qs(vals(x)), C.qs(vals(d)), C.q(val), C.qs(grad), C.q(dd), C.b(inner)))
+                rzv, mav = functional_variants()
+                term = ('{| f_e := %s; f_w := %s; f_rzv := %s; f_mav := %s; f_x := %s; f_d := %s; f_val := %s; '
+                        'f_grad := %s; f_dd := %s; f_inner := %s |}'
+                        % (e, C.qs(wts(X)), C.b(rzv), C.b(mav), C.qs(vals(x)), C.qs(vals(d)), C.q(val), C.qs(grad),
+                           C.q(dd), C.b(inner)))
         except (ValueError, OverflowError, ZeroDivisionError):
             continue                  # non-finite number somewhere
         if len(term) > 60000:
@@ -999,8 +1019,11 @@ def functional_cases(rng, tier):
                 if not _finite_small([val, dd] + grad):
                     continue
                 inner = type(D).__name__ == 'InnerProductOperator'
-                term = ('{| f_e := %s; f_w := %s; f_x := %s; f_d := %s; f_val := %s; f_grad := %s; f_dd := %s; f_inner := %s |}'
-                        % (fser(f), C.qs(wts(X)), C.qs(vals(x)), C.qs(vals(d)), C.q(val), C.qs(grad), C.q(dd), C.b(inner)))
+                rzv, mav = functional_variants()
+                term = ('{| f_e := %s; f_w := %s; f_rzv := %s; f_mav := %s; f_x := %s; f_d := %s; f_val := %s; '
+                        'f_grad := %s; f_dd := %s; f_inner := %s |}'
+                        % (fser(f), C.qs(wts(X)), C.b(rzv), C.b(mav), C.qs(vals(x)), C.qs(vals(d)), C.q(val),
+                           C.qs(grad), C.q(dd), C.b(inner)))
                 cs.add(term, {'functional': repr(f)[:300], 'x': vals(x)}, (term,))
     return cs
 
